@@ -37,7 +37,8 @@ META = {
                    "fallback_segmentor); other segmentors (punct, matcher, ascii, affix) are runtime-only. The geometric theorems also "
                    "ASSUME NoPrevMatch (auto_select off, or a max_code_length set): for auto_select schemas without a code-length bound "
                    "Speller::AutoSelectPreviousMatch pushes back a copied segment without comparing positions; the model follows it and "
-                   "agrees with the code (schemas vs_auto / vs_autof), but that the copy fits is not proved. The recursion of "
+                   "agrees with the code (schemas vs_auto / vs_autof) including the whole segment list, and the geometric invariant is monitored on the "
+                   "implementation's own segment list for every schema (session_common.seg_geometry), but that the copy fits is not proved. The recursion of "
                    "FindEarlierMatch is modelled with fuel |input|+1; that the fuel is never what stops it is not proved."),
     "design_ref": "DESIGN.md §3 C01",
 }
@@ -147,7 +148,17 @@ def run(c):
     sexe = sc.build()
     sws = sc.make_workspace(os.path.join(c.work, "sws"), list(sc.SCHEMAS))
     hs, rows_for = sc.standard_histories(c, 48 if quick else 400, 120 if quick else 300)
-    sstats = sc.session_check(c, "C01", lambda st, op, o: None, hs, rows_for, sexe, sws, "no crash", report_diffs=False)
+    # besides crashes, the implementation's own segment list is checked against the geometric invariant the substr / loop
+    # theorems rest on (a broken invariant without a crash = the property is no longer shown to hold: no-failing-input-found)
+    geo = lambda st, op, o: sc.seg_geometry(o)
+    sstats = sc.session_check(c, "C01", geo, hs, rows_for, sexe, sws, "segment geometry (the invariant behind substr_in_range)",
+                              report_diffs=False, monitor_no_input=True)
+    gst = sc.stock_monitor_check(c, "C01", geo, [sc.gen_stock_history(c.rng, 150 if quick else 300) for _ in range(12 if quick else 200)],
+                                 sexe, c1.make_full_workspace(os.path.join(c.work, "fws"), user_dict=False),
+                                 "segment geometry (the invariant behind substr_in_range)", monitor_no_input=True)
+    stats["fuzz_ops"] += gst["stock_ops"]
+    stats["crashes"] += gst["stock_crashes"]
+    stats["geometry_observations"] = sstats["ops"] + gst["stock_ops"]
     stats["fuzz_histories"] += sstats["histories"]
     stats["fuzz_ops"] += sstats["ops"]
     stats["crashes"] += sstats["crashes"]
@@ -275,7 +286,7 @@ def run(c):
                 "rule": "(1) seeded API fuzz histories with boundary values on a stock-like schema (luna_pinyin structure, all stock components, tiny dictionaries) and a synthetic one; (1b) the structured histories of the session checks; (1c) every sequence of at most 3 (quick) / 4 (thorough) mode switches in an open composition followed by a change of schema, and the fixed history on a one-schema deployment; (2) single type-mutations (10 kinds) of every node of the schema and of default.yaml, each deployed and driven by a fixed 90-call history; all under ASan+UBSan with a watchdog; non-trivial = each distinct history / mutant (all are)",
                 "samples": stats["samples"], "fuzz_histories": stats["fuzz_histories"], "fuzz_ops": stats["fuzz_ops"],
                 "mutants_run": stats["mutants"], "mutants_total": total_mutants, "op_kind_distribution": stats["kinds"],
-                "crashes_or_hangs": stats["crashes"], "mode_grid_sequences": stats.get("mode_grid_sequences"),
+                "crashes_or_hangs": stats["crashes"], "segment_geometry_observations": stats.get("geometry_observations"), "mode_grid_sequences": stats.get("mode_grid_sequences"),
                 "single_schema_deployment": stats.get("single_schema_deployment"), "api_entries_generated": genout.get("entries"),
                 "session_functions": genout.get("session_functions"), "free_pairs": genout.get("pairs"),
                 "proof_failures": audit["failures"]})
